@@ -36,7 +36,8 @@ BEHAVIOURS = [("ok", k, None) for k in (0, 1, 2)] + [("no-result", 1, None), ("f
 
 def one_case(case):
     """Runs in a forked child: returns (observations dict)."""
-    backend, shape, image_mode, md_pos, outdir_mode, beh, tempdir_init = case
+    backend, shape, image_mode, md_pos, outdir_mode, beh, tempdir_init = case[:7]
+    prior = case[7] if len(case) > 7 else False
     if STANDIN not in sys.path:
         sys.path.insert(0, STANDIN)
     import importlib
@@ -88,6 +89,15 @@ def one_case(case):
         chunks = [("stdout" if i % 2 == 0 else "stderr", f"chunk{i}\n".encode()) for i in range(k)]
         python_on_whales.PLAN.update(chunks=chunks, fail_after=fail_i if kind == "fail" else None, fail_at_call=(kind == "fail-at-call"),
                                      write_result=(kind != "no-result"), nonce=f"{os.getpid()}")
+        if prior:
+            # history: an earlier, successful execution into the same output directory
+            python_on_whales.PLAN.update(chunks=[], fail_after=None, fail_at_call=False, write_result=True, nonce="PRIOR")
+            pds = cls(d1 / "a.root", output_directory=outdir) if outdir is not None else cls(d1 / "a.root")
+            pr = pds.Select(f"lambda e: e.{coll}('A').Count()").value()
+            obs["prior_returned"] = [str(x) for x in pr]
+            python_on_whales.CALLS.clear()
+            python_on_whales.PLAN.update(chunks=chunks, fail_after=fail_i if kind == "fail" else None, fail_at_call=(kind == "fail-at-call"),
+                                         write_result=(kind != "no-result"), nonce=f"{os.getpid()}")
         tempfile.mkdtemp = tracking_mkdtemp
         stage = "ctor"
         try:
@@ -130,7 +140,7 @@ def one_case(case):
 
 def judge(case, o):
     """Spec table from the property statement.  Returns list of problems."""
-    backend, shape, image_mode, md_pos, outdir_mode, beh, tempdir_init = case
+    backend, shape, image_mode, md_pos, outdir_mode, beh, tempdir_init = case[:7]
     probs = []
     kind, k, fail_i = beh
     cache = BACKENDS[backend][4]
@@ -224,6 +234,9 @@ def main(tier="quick"):
                                     if shape in ("missing-alone", "missing-second", "empty") and beh != ("ok", 1, None):
                                         continue
                                 cases.append((backend, shape, image_mode, md_pos, outdir_mode, beh, tinit))
+                                # the same case after an earlier successful execution into the same output directory
+                                if tinit and shape in ("one-path", "two-same-dir") and image_mode == "default" and md_pos in ("none", "middle"):
+                                    cases.append((backend, shape, image_mode, md_pos, outdir_mode, beh, tinit, True))
     res = par.pmap(run_case, cases, chunksize=8)
     stats = Counter()
     outcomes = set()
@@ -235,7 +248,7 @@ def main(tier="quick"):
         for p in probs:
             n += 1
             rec = {"backend": case[0], "shape": case[1], "image_mode": case[2], "md_pos": case[3], "outdir": case[4], "behaviour": list(case[5]),
-                   "tempdir_initialised": case[6], "problem": p, "exc_type": o.get("exc_type"), "exc_stage": o.get("exc_stage")}
+                   "tempdir_initialised": case[6], "after_prior_run": len(case) > 7, "problem": p, "exc_type": o.get("exc_type"), "exc_stage": o.get("exc_stage")}
             f = F.match(known, rec)
             if f is not None:
                 rep.known_finding(f["id"], f["what"], str(case))
